@@ -157,7 +157,10 @@ def observe(agp, sched, idx):
             run['out'] = 'raise:' + type(e).__name__
             run['err'] = str(e)[:200]
         runs.append(run)
-    # gradients under this presentation (Real semiring, cotangent all ones)
+    # gradients under this presentation (Real semiring, cotangent all ones); derivatives at infinite weights are outside
+    # the property (C03 presupposes a finite Z) and outside the dual-number carrier of the specification
+    if any(x == INF for ws in agp['w'].values() for x in ws):
+        return runs
     run = {'sr': 'nat', 'tag': ['real', 'grad', 'float64', ['explicit', 'implicit', 'explicit_local'][idx % 3]], 'out': 'ok', 'res': {}, 'hasgrad': True, 'grads': {}}
     try:
         g = replay_schedule(agp, sched, 'real', torch.float64, implicit=idx % 3)
